@@ -1,6 +1,6 @@
 (* C03 — the result does not depend on the reduction-tree shape, the task order or the scheduler. *)
 From Coq Require Import ZArith String List Bool.
-From Flox Require Import ListX Val Agg Hom Spec Pipeline PipelineLaw Registry Exec C03Proofs.
+From Flox Require Import ListX Val Agg Hom Spec Pipeline PipelineLaw Registry Exec C03Proofs FloxTree FloxTreeLaw.
 Import ListNotations.
 Open Scope Z_scope.
 
@@ -36,5 +36,21 @@ Proof. exact schedule_independent. Qed.
 
 Print Assumptions C03_tree_shape_simple.
 Print Assumptions C03_tree_shape_grouped.
+(* flox's OWN tree for a cohort (dask_array_ops._tree_reduce): depth-1 levels of partial reductions over consecutive groups of at
+   most k nodes, then a final level whose partitions are all written to the cohort's single output key.  Whenever the number of
+   levels suffices (n <= k^depth; K2 checks this for the depth the real function uses, for n up to 700 around every power of
+   the fan-in and with leading kept axes) that output reduces every block of the cohort exactly once, in order ... *)
+Theorem C03_flox_tree_covers_when_depth_suffices :
+  forall (A : Type) depth k (bs : list A),
+    (1 <= k)%nat -> (1 <= depth)%nat -> bs <> [] -> (length bs <= k ^ depth)%nat -> leaves (flox_tree depth k bs) = bs.
+Proof. exact @flox_tree_covers. Qed.
+
+(* ... and one level too few silently drops whole partitions (17 blocks, fan-in 4: 2 levels keep only the last block) *)
+Theorem C03_too_shallow_tree_loses_blocks :
+  leaves (flox_tree 2 4 (seq 0 17)) = [16]%nat /\ leaves (flox_tree 3 4 (seq 0 17)) = seq 0 17.
+Proof. exact too_shallow_loses_blocks. Qed.
+
 Print Assumptions C03_builder_covers_in_order.
+Print Assumptions C03_flox_tree_covers_when_depth_suffices.
+Print Assumptions C03_too_shallow_tree_loses_blocks.
 Print Assumptions C03_schedule_independent.
